@@ -62,12 +62,23 @@ def load_known(prop=None):
             continue
         status, _, rest = line.partition(":")
         status = status.strip()
-        head, _, text = rest.partition("::")
-        fields = {}
-        for tok in head.split():
-            if "=" in tok:
+        if status == "fixed":
+            # fixed: property=<id> <commit> <what failed> :: key=<key> replay=<file>
+            head, _, trailer = rest.partition("::")
+            toks = head.split()
+            fields = {"property": toks[0].partition("=")[2], "commit": toks[1] if len(toks) > 1 else None}
+            text = " ".join(toks[2:])
+            for tok in trailer.split():
                 k, _, v = tok.partition("=")
                 fields[k] = v
+        else:
+            # open: property=<id> key=<key> replay=<file> :: <what fails>
+            head, _, text = rest.partition("::")
+            fields = {}
+            for tok in head.split():
+                if "=" in tok:
+                    k, _, v = tok.partition("=")
+                    fields[k] = v
         ent = {
             "status": status,
             "property": fields.get("property"),
